@@ -835,6 +835,11 @@ class OnionWorld:
             auth = self.rng.randbytes(len(auth))          # fresh random tag: repeating the manipulation never restores it
         elif how == "cands":
             cands = self.rng.randbytes(max(1, len(cands)))
+        elif how == "candkey":
+            # the joined node itself misbehaves: a correctly encrypted candidate list that holds an unparsable public key
+            src = self.name_of_addr(d.src)
+            keys = self.ov[src].exit_sockets[cid_real].hop.keys
+            cands = keys.encrypt_str(ov.serializer.pack("varlenH-list", [b"not a public key"] * 2), 0)
         npl = CreatedPayload(new_cid, ident, key, auth, cands)
         message = bytes([3]) + ov.serializer.pack_serializable(npl)[4:]
         d.data = self._cell_bytes(new_cid, True, data[28] != 0, message)
